@@ -8,7 +8,7 @@
    plus the reference WRITER of docs/NONMEM.rst (render_wfile) and the decimal -> binary64 rule (round_b64).
    Text is a list of character codes (N); values are exact rationals (Q); NaN is None.
    No proofs in this file. *)
-From Coq Require Import List NArith ZArith QArith Bool Arith Lia.
+From Coq Require Import List NArith ZArith QArith Qround Bool Arith Lia.
 Import ListNotations.
 Local Open Scope N_scope.
 
@@ -206,7 +206,7 @@ Definition parse_tail (s : text) : option (list N) :=
     | None => None end
   | None => None end.
 
-(* '(.*): ' greedy followed by the tail: the LONGEST prefix g (without newline) such that ': ' and the tail
+(* the greedy group DOT-STAR followed by ': ' and the tail: the LONGEST prefix g (without newline) such that ': ' and the tail
    follow.  Returns g and the six numbers. *)
 Fixpoint goal_longest (s : text) : option (text * list N) :=
   let here := match drop_prefix s_colon_sp s with
@@ -223,7 +223,7 @@ Fixpoint goal_longest (s : text) : option (text * list N) :=
            end
   end.
 
-(* ': (?:Goal Function=(.*): )?' tail   — returns (goal function, ids) *)
+(* ': ' then the optional non-capturing group 'Goal Function=' DOT-STAR ': ' then the tail — returns (goal function, ids) *)
 Definition after_colon (s : text) : option (option text * list N) :=
   match drop_prefix s_colon_sp s with
   | None => None
@@ -240,7 +240,7 @@ Definition after_colon (s : text) : option (option text * list N) :=
 
 Definition is_design_char (c : N) : bool := is_word c || (c =? c_minus).
 
-(* at one candidate end of the lazy '(.*?)': first with the optional group '(?:: ([\w-]+))?', then without *)
+(* at one candidate end of the lazy method group: first WITH the optional design group ': ' [\w-]+ , then without *)
 Definition after_method (s : text) : option (option text * option text * list N) :=
   let without := match after_colon s with Some (g, ids) => Some (None, g, ids) | None => None end in
   match drop_prefix s_colon_sp s with
@@ -256,7 +256,7 @@ Definition after_method (s : text) : option (option text * option text * list N)
   | None => without
   end.
 
-(* '(.*?)' lazy: the SHORTEST method text after which the rest matches *)
+(* the lazy method group: the SHORTEST method text after which the rest matches *)
 Fixpoint method_shortest (s : text) : option (text * option text * option text * list N) :=
   match after_method s with
   | Some (d, g, ids) => Some ([], d, g, ids)
@@ -373,12 +373,16 @@ Definition pow10 (e : Z) : Q :=
 
 Definition Zdigits (ds : text) : Z := Z.of_N (digits_val ds).
 
+(* an optional sign *)
+Definition split_sign (t : text) : bool * text :=
+  match t with
+  | c :: r => if c =? c_minus then (true, r) else if c =? c_plus then (false, r) else (false, t)
+  | [] => (false, t)
+  end.
+
 (* [+-]? digits  — str_to_int64 *)
 Definition parse_int (t : text) : option Z :=
-  let '(neg, r) := match t with
-                   | c :: r => if c =? c_minus then (true, r) else if c =? c_plus then (false, r) else (false, t)
-                   | [] => (false, t)
-                   end in
+  let '(neg, r) := split_sign t in
   match r with
   | [] => None
   | _ :: _ => if forallb is_digit r then Some (if neg then Z.opp (Zdigits r) else Zdigits r) else None
@@ -386,10 +390,7 @@ Definition parse_int (t : text) : option Z :=
 
 (* Python float syntax without inf/nan: [+-]? (digits [. digits*] | . digits) ([eE] [+-]? digits)? *)
 Definition parse_float (t : text) : option Q :=
-  let '(neg, r) := match t with
-                   | c :: r => if c =? c_minus then (true, r) else if c =? c_plus then (false, r) else (false, t)
-                   | [] => (false, t)
-                   end in
+  let '(neg, r) := split_sign t in
   let (ip, r1) := span is_digit r in
   let '(fp, r2, hasdot) := match r1 with
                            | c :: r1' => if c =? c_dot then let (f, r2) := span is_digit r1' in (f, r2, true)
@@ -405,11 +406,7 @@ Definition parse_float (t : text) : option Q :=
                 | [] => Some 0%Z
                 | c :: r3 =>
                     if (c =? 69) || (c =? 101) then
-                      let '(eneg, r4) := match r3 with
-                                         | c' :: r4 => if c' =? c_minus then (true, r4)
-                                                       else if c' =? c_plus then (false, r4) else (false, r3)
-                                         | [] => (false, r3)
-                                         end in
+                      let '(eneg, r4) := split_sign r3 in
                       match r4 with
                       | [] => None
                       | _ :: _ => if forallb is_digit r4
@@ -600,21 +597,6 @@ Definition reindex_cols (f : frame) (labels : list text) : frame :=
   mkFrame labels (map (fun ir => (fst ir, map (cell_at (snd ir)) idx)) (f_rows f)).
 
 (* str.replace(r'THETA(\d+)', r'THETA(\1)', regex=True): every occurrence *)
-Fixpoint theta_paren (s : text) : text :=
-  match s with
-  | [] => []
-  | c :: tl =>
-      match drop_prefix s_THETA s with
-      | Some r => let (ds, _) := span is_digit r in
-                  match ds with
-                  | [] => c :: theta_paren tl
-                  | _ :: _ => (* emit THETA( digits ) and continue after the digits: done by skipping *)
-                      c :: theta_paren tl
-                  end
-      | None => c :: theta_paren tl
-      end
-  end.
-(* (the skipping version needs a counter, as in sub_obj_aux) *)
 Fixpoint theta_paren_aux (skip : nat) (s : text) : text :=
   match s with
   | [] => []
@@ -866,30 +848,50 @@ Definition col_any (vals : list (list cell)) (j : nat) : bool :=
 
 Definition cell_text (c : cell) : option text := match c with CStr t => Some t | _ => None end.
 
+(* the parameter labels of a cov/cor/coi table in pharmpy's order (THETA, OMEGA, SIGMA), before renaming *)
+Definition cov_labels (f : frame) : list text :=
+  param_labels (filter (fun c => negb (text_eqb c s_NAME)) (f_cols f)).
+
+(* df.set_index('NAME').reindex(labels).reindex(labels, axis=1): rows looked up by NAME, absent ones NaN *)
+Definition cov_full (f : frame) (names : list text) : list (list cell) :=
+  let labels := cov_labels f in
+  let cidx := map (fun l => index_of l (f_cols f)) labels in
+  map (fun l => match index_of l names with
+                | Some i => match nth_error (f_rows f) i with
+                            | Some (_, r) => map (cell_at r) cidx
+                            | None => map (fun _ => CNaN) cidx
+                            end
+                | None => map (fun _ => CNaN) cidx
+                end) labels.
+
+Definition row_mask (vals : list (list cell)) : list bool := map (fun r => existsb cell_nonzero r) vals.
+Definition col_mask (vals : list (list cell)) (n : nat) : list bool := map (col_any vals) (seq 0 n).
+
+Definition cov_names (f : frame) : option (list text) :=
+  match index_of s_NAME (f_cols f) with
+  | None => None
+  | Some jn =>
+      let names := map (fun ir => cell_text (nth jn (snd ir) CNaN)) (f_rows f) in
+      if existsb (fun o => match o with None => true | _ => false end) names then None
+      else Some (flat_map (fun o => match o with Some t => [t] | None => [] end) names)
+  end.
+
 Definition cov_data_frame (f : frame) : rres matrix :=
   match index_of s_NAME (f_cols f) with
   | None => RErr 3
-  | Some jn =>
-      let names := map (fun ir => cell_text (nth jn (snd ir) CNaN)) (f_rows f) in
-      if existsb (fun o => match o with None => true | _ => false end) names then RUnmodelled else
-      let names := flat_map (fun o => match o with Some t => [t] | None => [] end) names in
-      let labels := param_labels (filter (fun c => negb (text_eqb c s_NAME)) (f_cols f)) in
-      if has_dup names || has_dup (map rename_theta labels) then RUnmodelled else
-      let cidx := map (fun l => index_of l (f_cols f)) labels in
-      (* df.reindex(labels): rows by NAME, absent ones NaN; then reindex(labels, axis=1) *)
-      let row_for := fun l => match index_of l names with
-                              | Some i => match nth_error (f_rows f) i with
-                                          | Some (_, r) => map (cell_at r) cidx
-                                          | None => map (fun _ => CNaN) cidx
-                                          end
-                              | None => map (fun _ => CNaN) cidx
-                              end in
-      let vals := map row_for labels in
-      let rmask := map (fun r => existsb cell_nonzero r) vals in
-      let cmask := map (col_any vals) (seq 0 (length labels)) in
-      let newlabels := map rename_theta labels in
-      ROk (mkMatrix (keep_mask rmask newlabels) (keep_mask cmask newlabels)
-                    (map (keep_mask cmask) (keep_mask rmask vals)))
+  | Some _ =>
+      match cov_names f with
+      | None => RUnmodelled
+      | Some names =>
+          let labels := cov_labels f in
+          if has_dup names || has_dup (map rename_theta labels) then RUnmodelled else
+          let vals := cov_full f names in
+          let rmask := row_mask vals in
+          let cmask := col_mask vals (length labels) in
+          let newlabels := map rename_theta labels in
+          ROk (mkMatrix (keep_mask rmask newlabels) (keep_mask cmask newlabels)
+                        (map (keep_mask cmask) (keep_mask rmask vals)))
+      end
   end.
 
 (* ------------------------------------------------------------------------------------------------ *)
@@ -999,6 +1001,7 @@ Definition rjust (w : nat) (s : text) : text := spaces (w - length s) ++ s.
 Definition ljust (w : nat) (s : text) : text := s ++ spaces (w - length s).
 
 Record wtitle := mkWTitle {
+  wt_short : bool;           (* $TABLE files: only 'TABLE NO.' and the number *)
   wt_number : text;          (* digits *)
   wt_method : text;
   wt_design : option text;
@@ -1007,6 +1010,7 @@ Record wtitle := mkWTitle {
 }.
 
 Definition render_title (t : wtitle) : text :=
+  if wt_short t then s_TABLE_NO_dot ++ [c_sp] ++ rjust 5 (wt_number t) ++ [c_nl] else
   s_TABLE_NO_dot ++ [c_sp] ++ rjust 5 (wt_number t) ++ s_colon_sp ++ wt_method t ++
   (match wt_design t with Some d => s_colon_sp ++ d | None => [] end) ++ s_colon_sp ++
   (match wt_goal t with Some g => s_Goal ++ g ++ s_colon_sp | None => [] end) ++
@@ -1035,23 +1039,81 @@ Record wtable := mkWTable {
   w_labels : list text;
   w_rows : list (list wnum);
   w_lastwide : bool;
-  w_repeat : nat              (* the label line is repeated before every w_repeat-th row; 0 = never *)
+  w_repeat : nat;             (* the label line is repeated before every w_repeat-th row; 0 = never *)
+  w_showlabels : bool         (* false: $TABLE NOHEADER / NOLABEL, no label line at all *)
 }.
 
 Fixpoint render_rows (t : wtable) (i : nat) (rows : list (list wnum)) : text :=
   match rows with
   | [] => []
   | r :: tl =>
-      (if negb (Nat.eqb (w_repeat t) 0) && negb (Nat.eqb i 0) && Nat.eqb (Nat.modulo i (w_repeat t)) 0
+      (if w_showlabels t && negb (Nat.eqb (w_repeat t) 0) && negb (Nat.eqb i 0) && Nat.eqb (Nat.modulo i (w_repeat t)) 0
        then render_labels (w_labels t) else []) ++
       render_row (w_lastwide t) r ++ render_rows t (S i) tl
   end.
 
 Definition render_wtable (t : wtable) : text :=
   (match w_title t with Some ti => render_title ti | None => [] end) ++
-  render_labels (w_labels t) ++ render_rows t 0 (w_rows t).
+  (if w_showlabels t then render_labels (w_labels t) else []) ++ render_rows t 0 (w_rows t).
 
 Definition render_wfile (ts : list wtable) : text := concat (map render_wtable ts).
+
+(* ------------------------------------------------------------------------------------------------ *)
+(** * Well-formed written tables (executable) and the frame / tables they denote — the right-hand side of
+      parse (render x) = x *)
+
+Definition tokchar (c : N) : bool := negb (is_delim c) && negb (c =? c_nl) && negb (c =? c_cr).
+Definition good_tok (t : text) : bool := match t with [] => false | _ :: _ => forallb tokchar t end.
+Definition all_digits (t : text) : bool := match t with [] => false | _ :: _ => forallb is_digit t end.
+
+(* a number that fits its field (at least one blank in front of it) and has the documented shape *)
+Definition wnum_ok (w : nat) (x : wnum) : bool :=
+  (length (wnum_text x) <? w)%nat &&
+  match x with
+  | WInt _ ds => all_digits ds && (length (wnum_text x) <? 19)%nat
+  | WSci _ d6 _ e2 => all_digits d6 && (length d6 =? 6)%nat && all_digits e2 && (length e2 =? 2)%nat
+  | WFix _ ip fp => all_digits ip && forallb is_digit fp
+  | WStr t => good_tok t && match classify t with KStr => true | _ => false end
+  end.
+
+Definition is_wstr (x : wnum) : bool := match x with WStr _ => true | _ => false end.
+
+Definition wcell (x : wnum) : cell :=
+  match x with
+  | WStr t => CStr t
+  | _ => match wnum_value x with Some q => CNum q | None => CNaN end
+  end.
+
+Fixpoint row_ok (lastwide : bool) (cells : list wnum) : bool :=
+  match cells with
+  | [] => true
+  | [c] => wnum_ok (if lastwide then 22 else 13) c
+  | c :: tl => wnum_ok 13 c && row_ok lastwide tl
+  end.
+
+Fixpoint labels_ok (labels : list text) : bool :=
+  match labels with
+  | [] => true
+  | [l] => good_tok l
+  | l :: tl => good_tok l && (length l <? 13)%nat && labels_ok tl
+  end.
+
+Definition col_homogeneous (rows : list (list wnum)) (j : nat) : bool :=
+  forallb (fun r => is_wstr (nth j r (WStr []))) rows || forallb (fun r => negb (is_wstr (nth j r (WStr [])))) rows.
+
+(* the body (label line and data lines) of one written table *)
+Definition wbody_ok (t : wtable) : bool :=
+  w_showlabels t && Nat.eqb (w_repeat t) 0 &&
+  match w_labels t with [] => false | _ :: _ => true end &&
+  labels_ok (w_labels t) && negb (has_dup (w_labels t)) &&
+  forallb (fun r => Nat.eqb (length r) (length (w_labels t)) && row_ok (w_lastwide t) r) (w_rows t) &&
+  forallb (col_homogeneous (w_rows t)) (seq 0 (length (w_labels t))).
+
+Definition frame_of_wtable (t : wtable) : frame :=
+  mkFrame (w_labels t) (number_from 0 (map (map wcell) (w_rows t))).
+
+Definition render_body (t : wtable) : text :=
+  render_labels (w_labels t) ++ render_rows t 0 (w_rows t).
 
 (* ------------------------------------------------------------------------------------------------ *)
 (** * decimal -> binary64: round to nearest, ties to even (what strtod / float_precision='round_trip' do).
@@ -1087,3 +1149,437 @@ Definition round_b64 (q : Q) : option Q :=
           Some (if (n <? 0)%Z then Qopp v else v)
       end
   end.
+
+(* ------------------------------------------------------------------------------------------------ *)
+(** * results.py: _parse_ext (_parse_ofv, _parse_parameter_estimates, _parse_standard_errors,
+      _get_fixed_parameters) and _parse_matrix on the tables of one run *)
+
+Fixpoint texts_eqb (a b : list text) : bool :=
+  match a, b with
+  | [], [] => true
+  | x :: a', y :: b' => text_eqb x y && texts_eqb a' b'
+  | _, _ => false
+  end.
+
+Fixpoint alookup (m : list (text * text)) (k : text) : option text :=
+  match m with
+  | [] => None
+  | (a, b) :: tl => if text_eqb a k then Some b else alookup tl k
+  end.
+(* Series.rename(index=name_map) / DataFrame.rename(columns=name_map): unknown labels stay *)
+Definition rename_with (nm : list (text * text)) (l : text) : text :=
+  match alookup nm l with Some x => x | None => l end.
+
+Fixpoint blookup (m : list (text * bool)) (k : text) : option bool :=
+  match m with
+  | [] => None
+  | (a, b) :: tl => if text_eqb a k then Some b else blookup tl k
+  end.
+
+Definition rbind {A B} (x : rres A) (f : A -> rres B) : rres B :=
+  match x with ROk a => f a | RErr k => RErr k | RUnmodelled => RUnmodelled end.
+
+(* _get_fixed_parameters(table, parameters, name_map): row -1000000006, else the model's FIX flags (renamed back to
+   NONMEM names) and True for every other column *)
+Definition get_fixed_parameters (g : frame) (pfix : list (text * bool)) (nm : list (text * text)) : rres (list (text * bool)) :=
+  match fixed_flags g with
+  | RErr 3%N =>
+      rbind (final_parameter_estimates g) (fun ests =>
+        let inv := map (fun ab => (snd ab, fst ab)) nm in
+        let fixed := map (fun pb => (rename_with inv (fst pb), snd pb)) pfix in
+        ROk (fixed ++ flat_map (fun nc => match blookup fixed (fst nc) with Some _ => [] | None => [(fst nc, true)] end) ests))
+  | r => r
+  end.
+
+Record ext_results := mkExtRes {
+  er_table_numbers : list N;
+  er_ofv : cell;
+  er_ofv_iterations : list (nat * cell * cell);                 (* step, iteration, OFV *)
+  er_pe : list (text * cell);
+  er_pe_cols : list text;
+  er_pe_iterations : list (nat * cell * list cell);             (* step, iteration, values *)
+  er_sdcorr : option (list (text * cell));                      (* None: the KeyError path (NaN over pe.index) *)
+  er_se : option (list (text * cell));                          (* None: NaN over pe.index *)
+  er_se_sdcorr : option (list (text * cell));
+  er_cov_abort : bool
+}.
+
+Definition design_of (t : table) : option text :=
+  match tb_title t with
+  | Some ti => match t_fields ti with Some (_, d, _, _) => d | None => None end
+  | None => None
+  end.
+Definition number_of (t : table) : N := match tb_title t with Some ti => t_number ti | None => 0%N end.
+
+(* the tables that take part: (1-based position, table), design-optimality tables skipped *)
+Definition est_tables (ts : list table) : list (nat * table) :=
+  filter (fun kt => match design_of (snd kt) with None => true | Some _ => false end) (number_from 1 ts).
+
+Fixpoint rmap {A B} (f : A -> rres B) (l : list A) : rres (list B) :=
+  match l with
+  | [] => ROk []
+  | x :: tl => rbind (f x) (fun y => rbind (rmap f tl) (fun ys => ROk (y :: ys)))
+  end.
+
+Definition has_str (l : list cell) : bool := existsb (fun c => match c with CStr _ => true | _ => false end) l.
+
+Definition iter_frame (t : table) : rres (frame * frame) :=     (* data_frame and _get_iter_df of it *)
+  rbind (ext_data_frame (tb_frame t)) (fun g =>
+    if has_str (col_cells g s_OBJ) then RUnmodelled else
+    rbind (get_iter_df g) (fun h => ROk (g, h))).
+
+Definition parse_ofv (ts : list table) : rres (cell * list (nat * cell * cell)) :=
+  rbind (rmap (fun kt => rbind (iter_frame (snd kt)) (fun gh => ROk (fst kt, gh))) (est_tables ts)) (fun l =>
+    let entries := flat_map (fun kgh => let '(k, (g, h)) := kgh in
+                     map (fun ir => (k, iter_cell h (snd ir), obj_cell h (snd ir))) (f_rows h)) l in
+    match last_opt l with
+    | None => RErr 4%N                                     (* assert isinstance(final_table, ExtTable) *)
+    | Some (_, (g, _)) =>
+        match last_opt entries with
+        | None => RErr 4%N                                 (* ofv[-1] of an empty list *)
+        | Some (_, _, o) =>
+            match o with
+            | CNaN => ROk (CNaN, entries)
+            | _ => rbind (final_ofv g) (fun c => ROk (c, entries))
+            end
+        end
+    end).
+
+Definition drop_names (names : list text) (l : list (text * cell)) : list (text * cell) :=
+  filter (fun nc => negb (existsb (text_eqb (fst nc)) names)) l.
+
+Definition parse_parameter_estimates (ts : list table) (pfix : list (text * bool)) (nm : list (text * text))
+  : rres (list (text * cell) * list text * list (nat * cell * list cell) * option (list (text * cell))) :=
+  rbind (rmap (fun kt => rbind (iter_frame (snd kt)) (fun gh =>
+                         rbind (get_fixed_parameters (fst gh) pfix nm) (fun fx =>
+                         ROk (fst kt, gh, fx)))) (est_tables ts)) (fun l =>
+    match last_opt l with
+    | None => RErr 4%N
+    | Some (_, (gfinal, _), fixfinal) =>
+        (* per table: the non-fixed parameter columns of the iteration frame *)
+        let per := map (fun x => let '(k, (g, h), fx) := x in
+                     let pcols := drop_first_last (f_cols h) in
+                     let fixed_names := filter (fun n => match blookup fx n with Some b => b | None => false end) pcols in
+                     let keep := map (fun c => negb (existsb (text_eqb c) fixed_names)) pcols in
+                     (k, h, fixed_names, keep_mask keep pcols, keep)) l in
+        (* fx[name] raises KeyError when a column has no flag *)
+        if existsb (fun x => let '(k, (g, h), fx) := x in
+                     existsb (fun n => match blookup fx n with None => true | Some _ => false end)
+                             (drop_first_last (f_cols h))) l then RErr 3%N else
+        match per with
+        | [] => RErr 4%N
+        | (_, _, _, cols0, _) :: _ =>
+            if negb (forallb (fun x => let '(_, _, _, cols, _) := x in
+                                       texts_eqb cols cols0) per) then RUnmodelled else
+            let rows := flat_map (fun x => let '(k, h, _, _, keep) := x in
+                          map (fun ir => (k, iter_cell h (snd ir), keep_mask keep (drop_first_last (snd ir)))) (f_rows h)) per in
+            let cols := map (rename_with nm) cols0 in
+            if has_dup cols then RUnmodelled else
+            match last_opt rows, last_opt per with
+            | Some (_, _, lastvals), Some (_, _, fixed_names, _, _) =>
+                let final_pe :=
+                  if forallb is_nan lastvals
+                  then ROk (combine cols lastvals)
+                  else rbind (final_parameter_estimates gfinal) (fun fe =>
+                         if negb (forallb (fun n => existsb (fun nc => text_eqb (fst nc) n) fe) fixed_names)
+                         then RErr 3%N
+                         else ROk (map (fun nc => (rename_with nm (fst nc), snd nc)) (drop_names fixed_names fe))) in
+                rbind final_pe (fun fpe =>
+                  let notfixed := fun (l : list (text * cell)) =>
+                    filter (fun nc => match blookup fixfinal (fst nc) with Some b => negb b | None => false end) l in
+                  match omega_sigma_stdcorr gfinal with
+                  | RErr 3%N => ROk (fpe, cols, rows, None)
+                  | RErr k => RErr k
+                  | RUnmodelled => RUnmodelled
+                  | ROk sd =>
+                      let sd' := map (fun nc => (rename_with nm (fst nc), snd nc)) (notfixed sd) in
+                      ROk (fpe, cols, rows,
+                           Some (map (fun nc => match find (fun x => text_eqb (fst x) (fst nc)) sd' with
+                                                | Some (_, CNum q) => (fst nc, CNum q)
+                                                | _ => nc end) fpe))
+                  end)
+            | _, _ => RErr 4%N
+            end
+        end
+    end).
+
+Definition update_with (base upd : list (text * cell)) : list (text * cell) :=      (* Series.update: non-NaN values win *)
+  map (fun nc => match find (fun x => text_eqb (fst x) (fst nc)) upd with
+                 | Some (_, CNum q) => (fst nc, CNum q)
+                 | Some (_, CStr t) => (fst nc, CStr t)
+                 | _ => nc end) base.
+
+(* _parse_standard_errors: returns (ses, ses_sdcorr, cov_abort); None = NaN over pe.index *)
+Definition parse_standard_errors (ts : list table) (pfix : list (text * bool)) (nm : list (text * text))
+  : rres (option (list (text * cell)) * option (list (text * cell)) * bool) :=
+  match last_opt ts with
+  | None => RErr 4%N
+  | Some t =>
+      rbind (ext_data_frame (tb_frame t)) (fun g =>
+        match standard_errors g with
+        | RErr 3%N => ROk (None, None, false)
+        | RErr k => RErr k
+        | RUnmodelled => RUnmodelled
+        | ROk ses =>
+            rbind (get_fixed_parameters g pfix nm) (fun fx =>
+              let notfixed := fun (l : list (text * cell)) =>
+                filter (fun nc => match blookup fx (fst nc) with Some b => negb b | None => false end) l in
+              if existsb (fun nc => match blookup fx (fst nc) with None => true | Some _ => false end) ses
+              then RUnmodelled else
+              match omega_sigma_se_stdcorr g with
+              | RErr 3%N => ROk (None, None, true)
+              | RErr k => RErr k
+              | RUnmodelled => RUnmodelled
+              | ROk sd =>
+                  let ren := map (fun nc => (rename_with nm (fst nc), snd nc)) in
+                  let ses' := ren (notfixed ses) in
+                  ROk (Some ses', Some (update_with ses' (ren (notfixed sd))), false)
+              end)
+        end)
+  end.
+
+(* _parse_matrix *)
+Definition parse_matrix (raw : option text) (nm : list (text * text)) (table_numbers : list N) : rres (option matrix) :=
+  match raw with
+  | None => ROk None
+  | Some t =>
+      match read_table_file SCov false t with
+      | RErr 1%N => ROk None
+      | RErr k => RErr k
+      | RUnmodelled => RUnmodelled
+      | ROk tables =>
+          match last_opt table_numbers with
+          | None => RErr 4%N
+          | Some n =>
+              match find (fun tb => N.eqb (number_of tb) n) tables with
+              | None => RErr 4%N
+              | Some tb =>
+                  rbind (cov_data_frame (tb_frame tb)) (fun m =>
+                    if negb (Nat.eqb (length (m_rows m)) (length (m_cols m))) then RErr 2%N
+                    else let names := map (rename_with nm) (m_rows m) in
+                         ROk (Some (mkMatrix names names (m_vals m))))
+              end
+          end
+      end
+  end.
+
+(* np.fill_diagonal(cor.values, 1) *)
+Fixpoint fill_diag_one (i : nat) (vals : list (list cell)) : list (list cell) :=
+  match vals with
+  | [] => []
+  | r :: tl => (firstn i r ++ match skipn i r with [] => [] | _ :: r' => CNum 1 :: r' end) :: fill_diag_one (S i) tl
+  end.
+
+Record run_results := mkRun {
+  rr_ext : ext_results;
+  rr_cov : option matrix;
+  rr_cor : option matrix;
+  rr_coi : option matrix
+}.
+
+Inductive run_outcome :=
+| RunNone                               (* no ext file: read_modelfit_results gives None *)
+| RunFailed                             (* broken ext file: ofv NaN, estimates NaN *)
+| RunOk (r : run_results).
+
+(* values_writable: whether DataFrame.values hands out a writable array (pandas < 3) or a read-only view
+   (pandas >= 3, copy-on-write) — np.fill_diagonal(cor.values, 1) raises ValueError on the latter *)
+Definition read_run (ext : option text) (pfix : list (text * bool)) (nm : list (text * text))
+           (covstatus : bool) (cov cor coi : option text) (values_writable : bool) : rres run_outcome :=
+  match ext with
+  | None => ROk RunNone
+  | Some raw =>
+      match read_table_file SExt false raw with
+      | RErr 1%N => ROk RunNone
+      | RErr 2%N => ROk RunFailed
+      | RErr k => RErr k
+      | RUnmodelled => RUnmodelled
+      | ROk ts =>
+          let tn := map number_of ts in
+          rbind (parse_ofv ts) (fun ofv =>
+          rbind (parse_parameter_estimates ts pfix nm) (fun pe =>
+          rbind (parse_standard_errors ts pfix nm) (fun se =>
+            let '(fpe, cols, rows, sdcorr) := pe in
+            let '(ses, ses_sd, abort) := se in
+            let er := mkExtRes tn (fst ofv) (snd ofv) fpe cols rows sdcorr ses ses_sd abort in
+            if covstatus && negb abort then
+              rbind (parse_matrix cov nm tn) (fun mcov =>
+              rbind (parse_matrix cor nm tn) (fun mcor =>
+              if match mcor with Some _ => negb values_writable | None => false end then RErr 2%N else
+              rbind (parse_matrix coi nm tn) (fun mcoi =>
+                ROk (RunOk (mkRun er mcov
+                              (option_map (fun m => mkMatrix (m_rows m) (m_cols m) (fill_diag_one 0 (m_vals m))) mcor)
+                              mcoi)))))
+            else ROk (RunOk (mkRun er None None None)))))
+      end
+  end.
+
+(* ------------------------------------------------------------------------------------------------ *)
+(** * results._parse_phi *)
+
+Record phi_results := mkPhiRes {
+  pr_ids : list cell;
+  pr_iofv : list cell;
+  pr_ie_cols : list text;
+  pr_ie : list (list cell);
+  pr_iec : list (list (list cell))
+}.
+
+Fixpoint digits_of_nat_aux (fuel n : nat) (acc : text) : text :=
+  match fuel with
+  | O => acc
+  | S f => let acc' := (48 + N.of_nat (n mod 10)) :: acc in
+           if (n / 10 =? 0)%nat then acc' else digits_of_nat_aux f (n / 10) acc'
+  end.
+Definition digits_of_nat (n : nat) : text := digits_of_nat_aux (S n) n [].
+
+Definition paren_name (pre : text) (i : nat) : text := pre ++ [40] ++ digits_of_nat i ++ [41].
+
+Fixpoint rsequence {A} (l : list (option A)) : option (list A) :=
+  match l with
+  | [] => Some []
+  | None :: _ => None
+  | Some x :: tl => option_map (cons x) (rsequence tl)
+  end.
+
+(* raw: the phi file (None = missing); rv_names: the model's eta names that occur in the name map *)
+Definition parse_phi (raw : option text) (nm : list (text * text)) (rv_names : list text) : rres (option phi_results) :=
+  match raw with
+  | None => ROk None
+  | Some t =>
+      rbind (read_table_file SPhi false t) (fun tables =>
+        match last_opt (filter (fun tb => match design_of tb with None => true | Some _ => false end) tables) with
+        | None => ROk None
+        | Some tb =>
+            let f := tb_frame tb in
+            match index_of s_ID (f_cols f), index_of s_OBJ (f_cols f) with
+            | Some _, Some _ =>
+                let v := phi_view_of f in
+                match p_eta_names v with
+                | [] => RErr 4%N                                     (* df.columns[0] of no columns *)
+                | c0 :: _ =>
+                    let prefix := firstn 3 c0 in
+                    let d := map (fun ia => (paren_name prefix (fst ia), snd ia)) (number_from 1 rv_names) in
+                    let ie_cols := map (rename_with d) (p_eta_names v) in
+                    (* index = {name_map[x]: i}; KeyError -> (None, None, None) *)
+                    match rsequence (map (alookup nm) (p_etc_names v)) with
+                    | None => ROk None
+                    | Some keys =>
+                        match rsequence (map (fun r => index_of r keys) rv_names) with
+                        | None => ROk None
+                        | Some idx =>
+                            match rsequence (p_etcs v) with
+                            | None => RErr 2%N                       (* numpy shape mismatch *)
+                            | Some mats =>
+                                if has_dup keys then RUnmodelled else
+                                ROk (Some (mkPhiRes (p_ids v) (p_iofv v) ie_cols (p_etas v)
+                                             (map (fun m => map (fun i => map (fun j => nth j (nth i m []) CNaN) idx) idx) mats)))
+                            end
+                        end
+                    end
+                end
+            | _, _ => ROk None
+            end
+        end)
+  end.
+
+(* ------------------------------------------------------------------------------------------------ *)
+(** * Guards of the "objective value comes from the designated row" theorem (executable) *)
+
+(* the table prints iteration 0 *)
+Definition g_has_iter0 (g : frame) : bool := existsb (cell_is 0%Z) (col_cells g s_ITERATION).
+
+(* the designated final row exists and carries the same OBJ as the last printed (non-negative) iteration *)
+Definition g_final_obj_eq_last (g : frame) : bool :=
+  match last_opt (rows_with g code_final),
+        last_opt (filter (fun ir => cell_ge0 (iter_cell g (snd ir))) (f_rows g)) with
+  | Some (_, rf), Some (_, rl) => negb (cell_neq (obj_cell g rf) (obj_cell g rl))
+  | _, _ => false
+  end.
+
+(* without iteration 0: the final row is the first row of the table (label 0) *)
+Definition g_final_first (g : frame) : bool :=
+  match f_rows g with
+  | (i, r) :: _ => Nat.eqb i 0 && cell_is code_final (iter_cell g r)
+  | [] => false
+  end.
+
+(* ------------------------------------------------------------------------------------------------ *)
+(** * Well-formed written titles and files, and the tables they denote *)
+
+Definition no_colon_nl (t : text) : bool :=
+  forallb (fun c => negb (c =? c_colon) && negb (c =? c_nl) && negb (c =? c_cr)) t.
+
+Definition wtitle_ok (t : wtitle) : bool :=
+  all_digits (wt_number t) &&
+  (wt_short t ||
+   (no_colon_nl (wt_method t) &&
+    match wt_design t with Some d => (match d with [] => false | _ => true end) && forallb is_design_char d | None => true end &&
+    match wt_goal t with Some g => no_colon_nl g | None => true end &&
+    Nat.eqb (length (wt_ids t)) 6 && forallb all_digits (wt_ids t))).
+
+Definition title_of_wtitle (t : wtitle) : title :=
+  mkTitle (digits_val (wt_number t)) (contains s_Evaluation (render_title t))
+          (if wt_short t then None
+           else Some (wt_method t, wt_design t, wt_goal t, map digits_val (wt_ids t))).
+
+Definition no_J (t : text) : bool := forallb (fun c => negb (c =? 74)) t.
+Definition all_upper (t : text) : bool := forallb is_upper t.
+
+(* the last label of an ext / phi table: some capitals (no J) followed by OBJ, e.g. OBJ, SAEMOBJ, MCMCOBJ *)
+Definition obj_label (l : text) : bool :=
+  let n := length l in
+  (3 <=? n)%nat && text_eqb (skipn (n - 3) l) s_OBJ && all_upper (firstn (n - 3) l) && no_J (firstn (n - 3) l).
+
+(* a label in which "OBJ" does not occur (SUBJECT_NO, OMEGA(1,1), ...) *)
+Definition no_obj (t : text) : bool := negb (contains s_OBJ t).
+
+Fixpoint labels_obj_ok (labels : list text) : bool :=
+  match labels with
+  | [] => true
+  | [l] => obj_label l || no_obj l
+  | l :: tl => no_obj l && labels_obj_ok tl
+  end.
+
+Fixpoint map_last {A} (f : A -> A) (l : list A) : list A :=
+  match l with
+  | [] => []
+  | [x] => [f x]
+  | x :: tl => x :: map_last f tl
+  end.
+
+Definition labels_as_read (sfx : suffix) (labels : list text) : list text :=
+  match sfx with
+  | SOther => labels
+  | _ => map_last (fun l => if obj_label l then s_OBJ else l) labels
+  end.
+
+Definition starts_alpha (l : text) : bool :=
+  match l with c :: _ => is_alpha c || (c =? c_us) | [] => false end.
+Definition first_cell_numeric (r : list wnum) : bool :=
+  match r with x :: _ => negb (is_wstr x) | [] => false end.
+Definition wstr_no_J (x : wnum) : bool := match x with WStr t => no_J t | _ => true end.
+
+Definition with_repeat (t : wtable) (k : nat) : wtable :=
+  mkWTable (w_title t) (w_labels t) (w_rows t) (w_lastwide t) k (w_showlabels t).
+
+(* one table of a file with the given suffix *)
+Definition wtable_ok (sfx : suffix) (t : wtable) : bool :=
+  match w_title t with Some ti => wtitle_ok ti | None => false end &&
+  wbody_ok (with_repeat t 0) &&
+  match sfx with
+  | SOther => match w_labels t with l :: _ => starts_alpha l | [] => false end &&
+              forallb first_cell_numeric (w_rows t)
+  | _ => Nat.eqb (w_repeat t) 0 && labels_obj_ok (w_labels t) &&
+         forallb (forallb wstr_no_J) (w_rows t)
+  end.
+
+Definition wfile_ok (sfx : suffix) (ts : list wtable) : bool :=
+  match ts with [] => false | _ :: _ => forallb (wtable_ok sfx) ts end.
+
+Definition table_of_wtable (sfx : suffix) (t : wtable) : table :=
+  mkTable (option_map title_of_wtitle (w_title t))
+          (mkFrame (labels_as_read sfx (w_labels t)) (number_from 0 (map (map wcell) (w_rows t)))).
+
+(* the same file with Windows line ends *)
+Definition crlf (t : text) : text := flat_map (fun c => if c =? c_nl then [c_cr; c_nl] else [c]) t.
